@@ -25,7 +25,7 @@ META = {
         'whose order is part of the API order by the rank column. R6 optional booleans use one default everywhere. '
         'R7 every consumer of a query row unpacks as many fields as the SELECT list has, in the prescribed order. '
         'R8 declared column types have converters/adapters and PARSE_DECLTYPES is on. R10 every row collection given to '
-        'executemany inside a loop is created inside that loop iteration (no re-insertion of earlier batches). R9 no record shares a mutable object that is later updated in place. R10 every row collection given to executemany inside a loop is created in that iteration. R11 the reader accumulates element text over all character-data callbacks (shared with C02-R2). R12 no id look-up of the importer uses `IS <placeholder>`.'),
+        'executemany inside a loop is created inside that loop iteration (no re-insertion of earlier batches). R9 no record shares a mutable object that is later updated in place. R10 every row collection given to executemany inside a loop is created in that iteration. R11 the reader accumulates element text over all character-data callbacks (shared with C02-R2). R12 no id look-up of the importer uses `IS <placeholder>`. R14 a reader uses SELECT DISTINCT only when it selects the rowid of the table it lists (tags, definitions, examples, counts are multisets). R15 the 1.1+ subcat links are collected from the local senses of every entry, external entries included.'),
     'decides': ['statement/parameter arity and order', 'column <-> model key binding', 'owner pairing', 'optional keys',
                 'rank agreement', 'default agreement', 'reader arity/order', 'type converters', 'no shared records', 'exactly-once insertion per batch'],
     'not_decided': ['equality of stored and reported values', '_batch slicing arithmetic', 'Unicode handling (delegated to sqlite3)'],
